@@ -378,6 +378,16 @@ def run(ctx):
 
     n_sub = 0
     n_ctor = 0
+    # compiler-generated moves: member-wise - the unique_ptr storage is nulled in the source, the integral size_/capacity_ are only copied
+    for op in ("move_ctor", "move_assign"):
+        sp = cls.get("special", {}).get(op)
+        if sp and not sp.get("deleted") and not sp.get("user_provided") and (sp.get("defaulted") or sp.get("implicit")):
+            if op == "move_ctor":
+                n_ctor += 1
+            for fld in ("size_", "capacity_"):
+                ctx.bad("R06.7", FV, "moved-from-%s-zeroed:%s=default" % (fld, op),
+                        "fixed_vector's %s is compiler-generated: it moves the storage pointer out of the source and copies %s, so the moved-from container still reports its old %s over null "
+                        "storage (size()/at()/iteration on it reach address 0)" % (op.replace("_", " "), fld, "size" if fld == "size_" else "capacity"), "%s:%d" % (cls["file"], cls["line"]))
     cap_writers = []
     n_bulk = [0]
     relies = {}
